@@ -18,9 +18,51 @@ import (
 func (e *Engine) doIter(s *slot, op Op) error {
 	err := e.doIter1(s, op)
 	if _, isViol := err.(*Violation); isViol && !e.asserted("iter") {
-		return nil // consumption pattern only (C15 brackets it); the outcome is C14's business
+		err = nil // consumption pattern only (C15 brackets it); the outcome is C14's business
+	}
+	if err == nil && op.Btw&2 != 0 {
+		err = e.iterQueriesInside(s, op)
+		if _, isViol := err.(*Violation); isViol && !(e.asserted("iter") || e.cfg.Bracket) {
+			err = nil
+		}
 	}
 	return err
+}
+
+// iterQueriesInside: read-only calls made from the body of a range loop (the tree is
+// unchanged) must not disturb the pass that is under way - the usual
+// `for k := range t.All() { t.Search(other) }`. The pass must deliver what an
+// undisturbed pass over a fresh sequence delivers.
+func (e *Engine) iterQueriesInside(s *slot, op Op) error {
+	what := showOp(e.Kinds(), op)
+	if op.M == "prefix" && !s.kind.HasPrefix() {
+		return nil
+	}
+	var ref []kv
+	if p := call(func() { ref = collect(e.obtainSeq(s.sub, op, op.M)) }); p != "" {
+		return ErrAbort
+	}
+	if len(ref) == 0 {
+		return nil
+	}
+	at := min(max(op.Stop, 0), len(ref)-1)
+	var got []kv
+	if p := call(func() {
+		e.obtainSeq(s.sub, op, op.M)(func(k []byte, v int) bool {
+			got = append(got, kv{clone(k), v})
+			if len(got) == at+1 || len(got) == len(ref) {
+				e.queriesBetween(s)
+			}
+			return true
+		})
+	}); p != "" {
+		return e.outcome("iter", what+" (read-only calls from inside the loop body)", p)
+	}
+	if !sameKVs(s.kind, got, ref) {
+		return violf("%s: a pass whose loop body made read-only calls on the tree (after elements %d and %d) delivered %s, an undisturbed pass yields %s", what, at+1, len(ref), e.fmtSeq(s.kind, got, 12), e.fmtSeq(s.kind, ref, 12))
+	}
+	e.fact("iter_queries_inside")
+	return nil
 }
 
 func (e *Engine) doIter1(s *slot, op Op) error {
@@ -111,7 +153,7 @@ func (e *Engine) doIter1(s *slot, op Op) error {
 		e.fact("iter_nested")
 	}
 	for r := 0; r < op.Re; r++ {
-		if op.Btw != 0 {
+		if op.Btw&1 != 0 {
 			// the tree stays unchanged, but other read-only calls happen before the sequence is used again
 			if p := call(func() { e.queriesBetween(s) }); p != "" {
 				return ErrAbort
